@@ -367,6 +367,12 @@ class VM:
         except RegexStackOverflow as e:
             # The matcher ran out of its backtracking budget
             self._handle_python_exception("RangeError", str(e))
+        except RecursionError:
+            # A built-in recursed deeper than the host allows (for example
+            # JSON.stringify with a replacer that keeps wrapping its values)
+            self._handle_python_exception(
+                "RangeError", "Maximum call stack size exceeded"
+            )
 
     def _execute_opcode(self, op: OpCode, arg: Optional[int], frame: CallFrame) -> None:
         """Execute a single opcode."""
